@@ -182,7 +182,7 @@ def C06(ctx):
                 if c:
                     c = gen.apply_edit(c, gen.rand_edit(rng, c))
             variants.append(("edited", c))
-            variants.append(("foreign", w[:rng.randrange(len(w) + 1)] + rng.choice("NXacgt-U") + w[rng.randrange(len(w) + 1):]))
+            variants.append(("foreign", w[:rng.randrange(len(w) + 1)] + rng.choice("NXacgtU*") + w[rng.randrange(len(w) + 1):]))
         variants.append(("random", gen.rand_dna(rng, rng.choice([1, 2, 4, 8]))))
         for kind, s in variants:
             walk = g.is_walk(v, s)
